@@ -11,7 +11,7 @@
 (* Checked here (invariant TowersAgree): the closed forms f0..f3 coded in  *)
 (* derivatives.rs (DualB!TowerB, evaluated over RingP at rational points   *)
 (* of each function's variety, both signs) equal the A-tower at the same   *)
-(* point; composite functions (tan, tanh, sph_j0/1/2 away from 0) are      *)
+(* point; composite functions (tan, sph_j0/1/2 away from 0)      are      *)
 (* B-programs whose jets equal Faa di Bruno over the A-tower.              *)
 (* Exported (TowerTables): the towers and generator list as JSON; the Rust *)
 (* float harness evaluates them with a dictionary of primitive functions.  *)
@@ -171,7 +171,7 @@ Env(q) ==
            [] g = "sh" -> PFun("sinh", PConst(q))
            [] g = "ch" -> PFun("cosh", PConst(q))
            [] g = "tan" -> PMul(PFun("sin", PConst(q)), PPowi(PFun("cos", PConst(q)), -1))
-           [] g = "tanh" -> PMul(PFun("sinh", PConst(q)), PPowi(PFun("cosh", PConst(q)), -1))
+           [] g = "tanh" -> PFun("tanh", PConst(q))
            [] g = "u" -> rinv(QSub(one, q2))
            [] g = "as" -> PFun("asin", PConst(q))
            [] g = "ac" -> PFun("acos", PConst(q))
@@ -231,7 +231,7 @@ JetHHD(v) == [mm \in A!SubSeqs(<<1, 2, 3>>) |->
                   [] mm = <<1, 2>> -> v.eps1eps2 [] mm = <<1, 3>> -> v.eps1eps3 [] mm = <<2, 3>> -> v.eps2eps3
                   [] mm = <<1, 2, 3>> -> v.eps1eps2eps3]
 CompositeB(ty, fn, x) ==
-    CASE fn = "tan" -> B!TanB(ty, x) [] fn = "tanh" -> B!TanhB(ty, x)
+    CASE fn = "tan" -> B!TanB(ty, x)
       [] fn = "sph_j0" -> B!SphJ0B(ty, x) [] fn = "sph_j1" -> B!SphJ1B(ty, x)
       [] fn = "sph_j2" -> B!SphJ2B(ty, x)
 CompositeOK(fn, q) ==
@@ -241,7 +241,7 @@ CompositeOK(fn, q) ==
         xh == SymX(B!THHD, q)
     IN  /\ Jet3(CompositeB(B!TDual3, fn, x3)) = A!ChainA(Jet3(x3), tw)
         /\ JetHHD(CompositeB(B!THHD, fn, xh)) = A!ChainA(JetHHD(xh), tw)
-Composites == {"tan", "tanh", "sph_j0", "sph_j1", "sph_j2"}
+Composites == {"tan", "sph_j0", "sph_j1", "sph_j2"}
 
 \* C09: the closed forms of powi / powf (through pow3 = x^(n-3)) equal the generalised
 \* binomial tower  x^n, n x^(n-1), n(n-1) x^(n-2), n(n-1)(n-2) x^(n-3).  The coefficients
